@@ -239,12 +239,12 @@ Section NormalForm.
     eapply (reaches_ends idna_raw c Hrep Hfail (map Good s)).
     { apply (scheme_phase_mixed idna_raw c Hrep Hfail (map Good s) sch _ false false false (empty_url s) Hr0 Ksch). }
     fold lsch.
-    pose proof (rest_app _ 0%Z _ _ ltac:(blia) Hr0) as Hr1.
+    pose proof (rest_app (map Good s) 0%Z _ _ ltac:(blia) Hr0) as Hr1.
     set (p := (len sch - 1)%Z) in *. replace (0 + len sch)%Z with (p + 1)%Z in Hr1 by (unfold p; ring).
     assert (Hp : (0 <= p)%Z) by (unfold p; blia).
-    destruct (rest_uncons _ (p + 1)%Z _ _ ltac:(blia) Hr1) as [_ [Hr2 _]].
-    destruct (rest_uncons _ (p + 1 + 1)%Z _ _ ltac:(blia) Hr2) as [_ [Hr3 _]].
-    destruct (rest_uncons _ (p + 1 + 1 + 1)%Z _ _ ltac:(blia) Hr3) as [_ [Hr4 _]].
+    destruct (rest_uncons (map Good s) (p + 1)%Z _ _ ltac:(blia) Hr1) as [_ [Hr2 _]].
+    destruct (rest_uncons (map Good s) (p + 1 + 1)%Z _ _ ltac:(blia) Hr2) as [_ [Hr3 _]].
+    destruct (rest_uncons (map Good s) (p + 1 + 1 + 1)%Z _ _ ltac:(blia) Hr3) as [_ [Hr4 _]].
     set (u0 := set_scheme (empty_url s) lsch).
     eapply (reaches_ends idna_raw c Hrep Hfail (map Good s)).
     { eapply (reaches_step idna_raw c Hrep Hfail).
@@ -268,7 +268,7 @@ Section NormalForm.
     change (set_password (set_username u0 user) pass) with u1.
     set (P := (p + 1 + 1 + 1 + len (cred_part user pass))%Z).
     pose proof (len_nonneg (cred_part user pass)) as Hlc.
-    pose proof (rest_app _ (p + 1 + 1 + 1 + 1)%Z _ _ ltac:(blia) Hr4c) as Hr5.
+    pose proof (rest_app (map Good s) (p + 1 + 1 + 1 + 1)%Z _ _ ltac:(blia) Hr4c) as Hr5.
     replace (p + 1 + 1 + 1 + 1 + len (cred_part user pass))%Z with (P + 1)%Z in Hr5 by (unfold P; ring).
     assert (Hsp1 : IsSpecialScheme c u1 = true) by exact K11.
     assert (Hsm : forallb (fun x => x <? 128) host = true).
@@ -289,12 +289,13 @@ Section NormalForm.
     set (u2 := port_upd c (set_host u1 (Some h')) op).
     set (X := host ++ port_part op). pose proof (len_nonneg X) as HlX.
     assert (Hr6 : rest_from (map Good s) (P + len X + 1) = pn ++ q_tail oq ++ f_tail of).
-    { pose proof (rest_app _ (P + 1)%Z X (pn ++ q_tail oq ++ f_tail of) ltac:(unfold P; blia)) as G.
+    { pose proof (rest_app (map Good s) (P + 1)%Z X (pn ++ q_tail oq ++ f_tail of) ltac:(unfold P; blia)) as G.
       replace (P + 1 + len X)%Z with (P + len X + 1)%Z in G by ring. apply G. rewrite Hr5. unfold X. rewrite <- app_assoc. reflexivity. }
     assert (Hu2 : u_scheme u2 = lsch /\ u_opaque u2 = false /\ u_path u2 = [] /\ IsSpecialScheme c u2 = true).
-    { unfold u2, port_upd. destruct op as [[|y d]|]; try (repeat split; exact K11).
+    { unfold u2, port_upd. destruct op as [[|y d]|]; try (repeat split; try reflexivity; exact K11).
       unfold cleanDefaultPort. cbn [u_scheme set_port set_host u_port].
-      destruct (getSpecialScheme c (u_scheme u1)); [destruct (str_eqb _ _)|]; repeat split; exact K11. }
+      destruct (getSpecialScheme c (u_scheme u1)); repeat match goal with |- context [if ?b then _ else _] => destruct b end;
+        repeat split; try reflexivity; exact K11. }
     destruct Hu2 as [U1 [U2 [U3 U4]]].
     assert (Hfin : forall seg rsegs P',
               (-1 <= P')%Z -> rest_from (map Good s) (P' + 1) = seg ++ flat_map (fun s => 47 :: s) rsegs ++ q_tail oq ++ f_tail of ->
@@ -326,10 +327,28 @@ Section NormalForm.
       eapply (reaches_finishes idna_raw c Hrep Hfail).
       { eapply (reaches_step idna_raw c Hrep Hfail);
           [apply (step_pathstart_slash idna_raw c Hrep Hfail _ (P + len X)%Z [] a false pw u2 _ ltac:(unfold P; blia) Hr6)|reflexivity]. }
-      destruct (rest_uncons _ (P + len X + 1)%Z _ _ ltac:(unfold P; blia) Hr6) as [_ [Hr7 _]].
+      destruct (rest_uncons (map Good s) (P + len X + 1)%Z _ _ ltac:(unfold P; blia) Hr6) as [_ [Hr7 _]].
       apply (Hfin seg1 rsegs (P + len X + 1)%Z ltac:(unfold P; blia)); [|exact K1|reflexivity].
       rewrite Hr7, <- ?app_assoc. reflexivity.
   Qed.
 End NormalForm.
 
 Print Assumptions normal_form.
+
+(* the premises hold and the normal form is what one expects:
+   "HtTp://U:p@Example.COM:080/a/./b/x/%2E./c?q=1'2#f" (the apostrophe in the query is encoded by the parser) *)
+Definition nf_ex : comps :=
+  {| k_sch := [72;116;84;112]; k_user := [85]; k_pass := [112];
+     k_host := [69;120;97;109;112;108;101;46;67;79;77]; k_port := Some [48;56;48];
+     k_segs := [[97]; [46]; [98]; [120]; [37;50;69;46]; [99]]; k_query := Some [113;61;49;39;50]; k_frag := Some [102] |}.
+Definition nf_ex_idna (s : str) : str * bool := (str_lower s, false).
+
+Example normal_form_ex :
+  cfg_rt default_cfg = true /\ c_skipTrailSlash default_cfg = false /\ comps_ok default_cfg nf_ex = true /\
+  Parse nf_ex_idna default_cfg (text_of nf_ex) = PUrl (nf default_cfg nf_ex [101;120;97;109;112;108;101;46;99;111;109]) /\
+  u_scheme (nf default_cfg nf_ex []) = [104;116;116;112] /\ u_port (nf default_cfg nf_ex []) = None /\
+  u_path (nf default_cfg nf_ex []) = [[97]; [98]; [99]] /\ u_query (nf default_cfg nf_ex []) = Some [113;61;49;37;50;55;50].
+Proof.
+  split; [vm_compute; reflexivity|]. split; [reflexivity|]. split; [vm_compute; reflexivity|].
+  split; [vm_compute; reflexivity|]. repeat split; vm_compute; reflexivity.
+Qed.
